@@ -15,11 +15,14 @@ Open Scope list_scope.
    information are exactly what they were before the call.
    The guard (c08_reasons in Spec/HistGuards.v) excludes: 1 a find_one_and_xxx with a projection
    anywhere in the history; 2 a failing single-document write while a TTL index exists and (a
-   stored document is expired at the current clock, or the write is of the update kind, fails
-   with DuplicateKeyError and a unique index exists); 4 an update-kind write failing with an
-   error other than DuplicateKeyError while a unique index exists; 8 a failing
-   find_one_and_update|replace with return_document=AFTER; 16 a stored _id that is not a Python
-   value.  Bits 2 to 16 each have a checked counterexample in Refuted/C08.v. *)
+   stored document is expired at the current clock, or the write is of the update kind and a
+   unique index exists); 4 an update-kind write on which the MODEL answers EUnmodelled while a
+   unique index exists (never set on a trace of the library; the former meaning of this bit,
+   "fails with an error other than DuplicateKeyError while a unique index exists", is gone:
+   the library now rolls back on every exception of the unique check, and that is proved
+   here); 8 a failing find_one_and_update|replace with return_document=AFTER; 16 a stored _id
+   that is not a Python value.  Bits 2 to 16 each have a checked counterexample in
+   Refuted/C08.v. *)
 Theorem C08_history : forall (pre5 : bool) (ops : list op),
   c08_reasons ops (model_obs pre5 empty_coll ops) = 0 ->
   c08_ok ops (model_obs pre5 empty_coll ops) = true.
